@@ -340,6 +340,15 @@ def specs(ctx):
             ["rr", "ww"], ["r", "r", "r", "w", "w"], ["rr", "r", "w", "w"], ["rw", "r", "w", "r"], ["rr", "rw", "wr"]]
 
 
+def search_specs(ctx):
+    """the search (real class only) also covers larger thread sets in the thorough tier; the last ones are cut off by the
+    time budget (recorded as incomplete in the evidence, never a violation)"""
+    if ctx.quick:
+        return specs(ctx)
+    return specs(ctx) + [["rr", "r", "r", "w", "w"], ["r", "r", "r", "ww", "w"], ["rw", "r", "r", "w", "w"],
+                         ["rr", "rr", "r", "ww", "w"], ["rr", "rr", "rr", "ww", "ww"]]
+
+
 def correspond(ctx):
     t0 = time.time()
     validated = 0
@@ -529,9 +538,9 @@ def explore_real_parallel(spec, deadline):
 
 def search(ctx):
     t0 = time.time()
-    budget = 45 if ctx.quick else 900
+    budget = 45 if ctx.quick else 600
     tot_states = tot_runs = 0
-    for spec in specs(ctx):
+    for spec in search_specs(ctx):
         left = budget - (time.time() - t0)
         if left <= 1:
             ctx.hist("search.skipped_for_time", ",".join(spec))
